@@ -6,17 +6,20 @@ B=${1:?builddir}; MPI=${2:-}
 V=$(cd "$(dirname "$0")/.." && pwd)
 SRC=${VERIF_PIKA_SRC:-/repo}
 INSTR="-fsanitize=thread -mllvm -tsan-instrument-memory-accesses=0 -mllvm -tsan-instrument-func-entry-exit=0 -mllvm -tsan-instrument-memintrinsics=0 -Wno-unused-command-line-argument"
+# configuration parity with /repo's g++ build: concurrentqueue.hpp enables its thread-exit recycling for g++ >= 4.8 but
+# not for clang (which reports __GNUC__ 4.2); the header honours an outside definition
+INSTR="$INSTR -DMOODYCAMEL_CPP11_THREAD_LOCAL_SUPPORTED"
 COMMON=(-G Ninja -S "$SRC" -B "$B" -DCMAKE_BUILD_TYPE=Debug -DCMAKE_CXX_COMPILER=clang++-14 -DCMAKE_C_COMPILER=clang-14
   -DPIKA_WITH_TESTS=OFF -DPIKA_WITH_EXAMPLES=OFF -DPIKA_WITH_MALLOC=system
   -Dfmt_DIR=/usr/lib/x86_64-linux-gnu/cmake/fmt -DPIKA_WITH_UNITY_BUILD=ON -DPIKA_WITH_VERIFY_LOCKS=OFF
   -DPIKA_WITH_PRECOMPILED_HEADERS=OFF)
 [ -n "$MPI" ] && COMMON+=(-DPIKA_WITH_MPI=ON)
-if [ ! -f "$B/.configured2" ]; then
+if [ ! -f "$B/.configured3" ]; then
   rm -rf "$B"; mkdir -p "$B"
   env -u CXXFLAGS cmake "${COMMON[@]}" "-DCMAKE_CXX_FLAGS_DEBUG=-O1 -g" > "$B/cmake1.log" 2>&1
   env -u CXXFLAGS cmake "${COMMON[@]}" "-DCMAKE_CXX_FLAGS_DEBUG=-O1 -g $INSTR" \
      "-DCMAKE_SHARED_LINKER_FLAGS=-Wl,--unresolved-symbols=ignore-all" > "$B/cmake2.log" 2>&1
-  touch "$B/.configured2"
+  touch "$B/.configured3"
 fi
 ninja -C "$B" pika > "$B/ninja.log" 2>&1 || { tail -40 "$B/ninja.log"; exit 1; }
 # MPI build: the MPI polling module is rebuilt with plain memory accesses instrumented as well (hooks
